@@ -50,6 +50,24 @@ type Embedder struct {
 	Extra string
 }
 
+// Meta and Page: Page promotes Meta's fields and methods through an embedded
+// pointer that is nil.
+type Meta struct{ Description string }
+
+func (m Meta) Describe() string { return "d:" + m.Description }
+
+type Page struct {
+	*Meta
+	Title string
+}
+
+// Node is a struct that is part of a pointer cycle.
+type Node struct {
+	Name   string
+	Parent *Node
+	Kids   []*Node
+}
+
 // Slot takes an unsigned parameter: negative and oversized numbers cannot be used.
 func (p Person) Slot(n uint8) string { return "slot:" + strconv.Itoa(int(n)) }
 
@@ -207,6 +225,24 @@ func Build(v sb.V) interface{} {
 		return OnlyBoolean{v.B}
 	case "boolstringer":
 		return BoolStringer{v.S, v.B}
+	case "nan":
+		return math.NaN()
+	case "embednil":
+		return Page{Title: v.S}
+	case "cyclicmap":
+		mp := map[string]stick.Value{"title": "t"}
+		mp["self"] = mp
+		mp["kids"] = []stick.Value{mp}
+		return mp
+	case "cyclicnode":
+		root := &Node{Name: "root"}
+		kid := &Node{Name: "kid", Parent: root}
+		root.Kids = []*Node{kid}
+		root.Parent = root
+		return kid
+	case "arrayofany":
+		// comparable by its static type, unhashable by its contents
+		return [1]interface{}{[]int{1}}
 	case "plain":
 		return Plain{int(v.N)}
 	case "decimal":
@@ -448,12 +484,12 @@ func repr(b *strings.Builder, v interface{}, depth int) {
 		}
 		b.WriteString("]")
 	case reflect.Map:
-		keys := rv.MapKeys()
-		ks := make([]string, len(keys))
+		var ks []string
 		m := map[string]reflect.Value{}
-		for i, k := range keys {
-			ks[i] = fmt.Sprint(k.Interface())
-			m[ks[i]] = rv.MapIndex(k)
+		for it := rv.MapRange(); it.Next(); {
+			k := fmt.Sprint(it.Key().Interface())
+			ks = append(ks, k)
+			m[k] = it.Value()
 		}
 		sort.Strings(ks)
 		b.WriteString("{")
